@@ -43,6 +43,18 @@ var purityTrees = map[string]map[string]string{
 		"right.tsh":       "import u \"y/z/unit.tsh\"\n\nfunc R() string {\n\treturn \"r\" + itoa(u.Next())\n}\n",
 		"x/unit.tsh":   "var count int = 10\nfunc Next() int {\n\tcount += 2\n\treturn count\n}\n",
 		"y/z/unit.tsh": "var count int = 10\nfunc Next() int {\n\tcount += 2\n\treturn count\n}\n"},
+	// one caller known to TWO import parsers, with several callees (round 9: the merged callee list took the order of a map iteration and the order of the
+	// function definitions in the script followed it): two imports that both call several of their functions at import time; a file with such functions
+	// reached along two paths; the same file under two aliases
+	"impcalls": {"main.tsh": "import (\n\talpha \"alpha.tsh\"\n\tbeta \"beta.tsh\"\n)\n\nprint(alpha.Alpha(), beta.Beta())\n",
+		"alpha.tsh": "func a1() string {\n\treturn \"a1\"\n}\nfunc a2() string {\n\treturn \"a2\"\n}\nfunc a3() string {\n\treturn \"a3\"\n}\nfunc a4() string {\n\treturn \"a4\"\n}\nfunc Alpha() string {\n\treturn a1() + a2() + a3() + a4()\n}\nprint(\"alpha\", a4(), a3(), a2(), a1())\n",
+		"beta.tsh":  "func b1() string {\n\treturn \"b1\"\n}\nfunc b2() string {\n\treturn \"b2\"\n}\nfunc b3() string {\n\treturn \"b3\"\n}\nfunc Beta() string {\n\treturn b1() + b2() + b3()\n}\nprint(\"beta\", b1(), b2(), b3())\n"},
+	"diamondcalls": {"main.tsh": "import (\n\tl \"left.tsh\"\n\tr \"right.tsh\"\n)\n\nprint(l.L(), r.R())\n",
+		"left.tsh":  "import c \"core.tsh\"\n\nfunc L() string {\n\treturn \"l\" + c.All()\n}\nprint(\"left\", c.One(), c.Two())\n",
+		"right.tsh": "import c \"core.tsh\"\n\nfunc R() string {\n\treturn \"r\" + c.All() + c.Three()\n}\nprint(\"right\", c.Three(), c.Two())\n",
+		"core.tsh":  "func One() string {\n\treturn \"1\"\n}\nfunc Two() string {\n\treturn \"2\"\n}\nfunc Three() string {\n\treturn \"3\"\n}\nfunc tail() string {\n\treturn \".\"\n}\nfunc All() string {\n\treturn One() + Two() + Three() + tail()\n}\nprint(\"core\", All(), tail())\n"},
+	"twicecalls": {"main.tsh": "import (\n\tp \"core.tsh\"\n\tq \"core.tsh\"\n)\n\nprint(p.All(), q.One(), q.Three())\n",
+		"core.tsh": "func One() string {\n\treturn \"1\"\n}\nfunc Two() string {\n\treturn \"2\"\n}\nfunc Three() string {\n\treturn \"3\"\n}\nfunc All() string {\n\treturn One() + Two() + Three()\n}\nprint(\"core\", Three(), Two(), One(), All())\n"},
 	"plain": {"main.tsh": "a := 3\nfor i := 0; i < a; i++ {\n\tif i == 1 {\n\t\tcontinue\n\t}\n\tprint(i)\n}\ns := []int{1, 2}\ns[3] = 4\nprint(len(s), \"x\"[0:1])\n"},
 	"dirA": {"main.tsh": "import u \"util.tsh\"\n\nprint(u.Label(1), u.Twice(2))\n",
 		"util.tsh": "func Label(n int) string {\n\treturn \"item-\" + itoa(n)\n}\nfunc Twice(n int) int {\n\treturn n * 2\n}\nfunc Unused() int {\n\treturn 0\n}\n"},
